@@ -680,7 +680,9 @@ func (root *Root) resolveField(
 		ea = root.addError(field, ea, err)
 	}
 	if IsNil(attr) {
-		result[field.key()] = nil
+		if _, has := result[field.key()]; !has {
+			result[field.key()] = nil
+		}
 	} else {
 		var ft Type
 		if fd != nil {
@@ -689,12 +691,48 @@ func (root *Root) resolveField(
 		var fv interface{} // field value
 		fv, ea2 = root.resolve(attr, vars, field, ft, depth)
 		ea = append(ea, ea2...)
+		if prev, has := result[field.key()]; has {
+			// The response key was selected before, {o{a} o{b}} is {o{a b}}.
+			fv = mergeValue(prev, fv)
+		}
 		result[field.key()] = fv
 	}
 	if depth < MaxResolveDepth {
 		Errors(ea).in(field.key())
 	}
 	return
+}
+
+// mergeValue combines the values of a response key that was selected more
+// than once. Objects are merged key by key and lists of the same length
+// element by element into new maps and lists, anything else is replaced by
+// the later value.
+func mergeValue(prev, add interface{}) interface{} {
+	switch tp := prev.(type) {
+	case map[string]interface{}:
+		if ta, ok := add.(map[string]interface{}); ok {
+			merged := make(map[string]interface{}, len(tp)+len(ta))
+			for k, v := range tp {
+				merged[k] = v
+			}
+			for k, v := range ta {
+				if pv, has := merged[k]; has {
+					v = mergeValue(pv, v)
+				}
+				merged[k] = v
+			}
+			return merged
+		}
+	case []interface{}:
+		if ta, ok := add.([]interface{}); ok && len(ta) == len(tp) {
+			merged := make([]interface{}, len(tp))
+			for i, v := range ta {
+				merged[i] = mergeValue(tp[i], v)
+			}
+			return merged
+		}
+	}
+	return add
 }
 
 func (root *Root) addError(f *Field, ea []error, err error) []error {
